@@ -39,6 +39,9 @@ def families(tier):
         ("D", lambda: enum2d.D(4 if q else 5), 1),
         ("Lad", lambda: ({**enum2d.ladder(K, gap=g), "ladder": K} for K in range(1, 9) for g in (0, 1, 2)), 1),
         ("M-exotic-letters", lambda: (enum2d.exotic(c) for c in enum2d.M(7, nmin=2)), 1),
+        # positions with four and five digits (two or three crossing stems far apart) and many small groups of crossing stems (up to 14 stems in knots)
+        ("long-chains", lambda: (c for c in __import__("mc.props.c02", fromlist=["x"])._long_chains(tier) if c["long"] <= 12000), 1),
+        ("many-groups", lambda: __import__("mc.props.c16", fromlist=["x"])._many_groups(), 1),
     ]
 
 
